@@ -410,9 +410,11 @@ class C17(Check):
         try:
             lens = range(1, 9 if tier == "quick" else 11)
             n = 0
-            for ln in lens:
-                for t in itertools.product(b"An", repeat=ln):
-                    seq = bytes(t)
+            # every string over {A,n}, and (shorter) every string over {A,n,R} that contains the ambiguity code R
+            strings = [bytes(t) for ln in lens for t in itertools.product(b"An", repeat=ln)]
+            strings += [bytes(t) for ln in range(2, 7 if tier == "quick" else 8) for t in itertools.product(b"AnR", repeat=ln) if b"R"[0] in t]
+            for seq in strings:
+                if True:
                     if b"A" not in seq:
                         continue
                     for w in (2, 3, 4):
@@ -553,6 +555,15 @@ class C17(Check):
             m2 = (2.0, (("Scaffold_1", (("SUPER_1", 1, 40, 1, ("Painted",)),)), ("Scaffold_2", (("SUPER_2", 1, 30, 1, ()),)), ("Scaffold_3", (("SUPER_X", 1, 20, 1, ("Painted", "X")),))))
             cli.write_pretext(d / "in" / "m1.agp", m1)
             cli.write_pretext(d / "in" / "m2.agp", m2)
+            # (twice) a second haplotype with two painted scaffolds in one group (lettered names SUPER_1A, SUPER_1B), run twice
+            inp_l = (
+                ("HAP1_SCAFFOLD_1", (("F", "HAP1_SCAFFOLD_1", 1, 40, 1),)),
+                ("HAP2_SCAFFOLD_2", (("F", "HAP2_SCAFFOLD_2", 1, 30, 1),)),
+                ("HAP2_SCAFFOLD_3", (("F", "HAP2_SCAFFOLD_3", 1, 20, 1),)),
+            )
+            cli.write_tpf(d / "in" / "l.tpf", inp_l)
+            ml = (2.0, (("Scaffold_1", (("HAP1_SCAFFOLD_1", 1, 40, 1, ("Painted", "Hap1")),)), ("Scaffold_2", (("HAP2_SCAFFOLD_2", 1, 30, 1, ("Painted", "Hap2")),)), ("Scaffold_3", (("HAP2_SCAFFOLD_3", 1, 20, 1, ("Painted", "Hap2")),))))
+            cli.write_pretext(d / "in" / "ml.agp", ml)
 
             def p2a(asm, mp, od, ext):
                 od.mkdir(parents=True, exist_ok=True)
@@ -566,6 +577,7 @@ class C17(Check):
                 "path-v2-then-v1-caches-removed": ([put("v2", True), p2a(fa, "map.agp", d / "h2a", "fa"), put("v1", True)], [put("v1", True)], p2a(fa, "map.agp", d / "OUT", "fa")),
                 "path-v1-then-v2-caches-kept": ([put("v1", True), p2a(fa, "map.agp", d / "h3a", "fa"), put("v2", False)], [put("v2", True)], p2a(fa, "map.agp", d / "OUT", "fa")),
                 "rank-autosome-then-unpainted": ([p2a(d / "in" / "r.tpf", "m1.agp", d / "h4a", "tpf")], [], p2a(d / "in" / "r.tpf", "m2.agp", d / "OUT", "tpf")),
+                "lettered-names-same-job-twice": ([p2a(d / "in" / "l.tpf", "ml.agp", d / "h6a", "tpf")], [], p2a(d / "in" / "l.tpf", "ml.agp", d / "OUT", "tpf")),
                 "rank-unpainted-then-autosome": ([p2a(d / "in" / "r.tpf", "m2.agp", d / "h5a", "tpf")], [], p2a(d / "in" / "r.tpf", "m1.agp", d / "OUT", "tpf")),
             }
             for name, (before, alone_before, last) in histories.items():
@@ -587,6 +599,8 @@ class C17(Check):
                     if any(codes):
                         ctx.violation("sequence-run-fails", case, f"exit codes {codes}")
                     outs.append({n: v for n, v in files_norm(od, od).items() if not (name.endswith("caches-kept") and n.endswith(".log"))})
+                if name.startswith("lettered") and not any(b"SUPER_1B" in v for v in outs[0].values()):
+                    raise RuntimeError("harness: the lettered-names job does not produce SUPER_1B")
                 if outs[0] != outs[1]:
                     diff = sorted(n for n in set(outs[0]) | set(outs[1]) if outs[0].get(n) != outs[1].get(n))
                     ctx.violation("output-depends-on-earlier-runs-in-process", case, f"{diff!r} differ from the fresh-process run")
@@ -679,3 +693,4 @@ _ = sys
 CHECK = C17()
 # scope added in later rounds, kept in the evidence text
 CHECK.rule += ' Sequence histories: the same FASTA path holding another file for the second invocation (caches removed or kept), and the same scaffold name with another rank in the second invocation; compared with the second invocation alone in a fresh process.'
+CHECK.rule += ' Also a job that needs lettered chromosome names (SUPER_1A / SUPER_1B) run twice in one process. Buffer sweep also over strings with the ambiguity code R (length <= 6).'
